@@ -186,6 +186,12 @@ def rec_pairs(seed):
         ap_r.do_photometry(d, error=e, mask=m_a, method=method, subpixels=sub)
         pair('same_aperture_object_reused_with_other_mask', ap_r.do_photometry(d, error=e, **kw)[0], fa)
         pair('same_aperture_object_reused_with_other_mask', ap_r.area_overlap(d, method=method, subpixels=sub), mk(pos).area_overlap(d, method=method, subpixels=sub))
+        # the same pixel values stored as integers (raw counts) or single precision give the same sums (the weights stay fractional)
+        if np.all(np.isfinite(d)) and np.all(d == np.rint(d)) and np.all(np.abs(d) < 30000):
+            dt = [np.int16, np.int32, np.uint16, np.int64, np.float32][seed % 5]
+            if dt is not np.uint16 or np.all(d >= 0):
+                pair('integer_image_gives_the_same_sums', ap.do_photometry(d.astype(dt), **kw)[0], fa, tol=4)
+                pair('integer_image_gives_the_same_sums', np.asarray(A.aperture_photometry(d.astype(dt), ap, **kw)['aperture_sum']), fa, tol=4)
         # linearity
         dd = np.array([[rng.randint(-9, 9) for _ in range(w)] for _ in range(h)], dtype=float)
         fb = ap.do_photometry(dd, **kw)[0]
